@@ -239,6 +239,23 @@ pub fn c12(run: &mut Run) -> Stats {
             st
         })
         .reduce(Stats::default, Stats::merge);
+    // (D) classes of many disjoint intervals (26 and 47 ASCII intervals, with and without a non-ASCII member,
+    // negated, case-insensitive) from the size-parameterised families, against every printable ASCII character
+    let many: Vec<(String, &'static str, Vec<String>)> = sweep::scale_family_fixed().into_iter().filter(|(p, _, _)| p.starts_with('[') || p.starts_with("^(?:[")).collect();
+    let st_d = many
+        .par_iter()
+        .fold(Stats::default, |mut st, (p, f, hs)| {
+            let pat: Vec<u32> = p.chars().map(|c| c as u32).collect();
+            let fl = Flags::parse(f);
+            if let Ok(ast) = refparse::parse(&pat, fl) {
+                // one haystack per character (membership of each character on its own) plus the given ones
+                let mut hays: Vec<Hay> = hs.iter().map(|h| Hay::new(h.chars().map(|c| c as u32).collect())).collect();
+                hays.extend((0x20u32..0x7F).chain([0xE9, 0x3B1, 0x391]).map(|c| Hay::new(vec![c])));
+                sweep::eval_pattern_text(&cfg, &ast, pat, fl, &hays, &known, &mut st);
+            }
+            st
+        })
+        .reduce(Stats::default, Stats::merge);
     // (B) every spelling: all strings over the class syntax alphabet that the reference parser accepts
     let alpha: Vec<u32> = "[]^&-\\q{}|abdwWk!".chars().map(|c| c as u32).collect();
     let maxlen = if thorough { 7 } else { 6 };
@@ -273,7 +290,7 @@ pub fn c12(run: &mut Run) -> Stats {
         })
         .reduce(Stats::default, Stats::merge);
     run.rule = format!(
-        "(A) {} class expressions: v-mode operands {{a b & - k U+212A U+017F \\b a-c \\d \\w \\W \\q{{ab|a|}} \\q{{b}} \\q{{ka|ab}} \\q{{AB}} \\q{{Ka|aB|B}} A \\p{{Lu}} \\P{{Lu}}}} combined by union / && / -- with optional ^, nested to depth {}, under v and iv; legacy brackets of <= 2 items with Annex B forms under \"\", i, u, iu; each as /^E$/ and /E/ against every string of length <= 2 over a 19-character universe (plus nine three-character strings), every start; (B) every string '[' + s, |s| <= {} over the alphabet {{[ ] ^ & - \\ q {{ }} | a b d w W k !}}, that the reference parser reads as one class, under v, iv, \"\", i, u (all spellings of the same set); (C) {} classes of one or two items (singles and ranges) over the encoding-length boundary points {{0 7C 7D 7F 80 81 7FF 800 FFFF 10000 10FFFF}} plus small literal sets around U+0080, plain and negated, under \"\", i, u, iu, v, against every haystack of length <= 1 over 20 boundary neighbours; compared with the reference semantics (range and match); non-trivial = a match exists",
+        "(A) {} class expressions: v-mode operands {{a b & - k U+212A U+017F \\b a-c \\d \\w \\W \\q{{ab|a|}} \\q{{b}} \\q{{ka|ab}} \\q{{AB}} \\q{{Ka|aB|B}} A \\p{{Lu}} \\P{{Lu}}}} combined by union / && / -- with optional ^, nested to depth {}, under v and iv; legacy brackets of <= 2 items with Annex B forms under \"\", i, u, iu; each as /^E$/ and /E/ against every string of length <= 2 over a 19-character universe (plus nine three-character strings), every start; (B) every string '[' + s, |s| <= {} over the alphabet {{[ ] ^ & - \\ q {{ }} | a b d w W k !}}, that the reference parser reads as one class, under v, iv, \"\", i, u (all spellings of the same set); (D) classes of 26 and 47 disjoint ASCII intervals (plain, negated, with a non-ASCII member, case-insensitive) against every printable ASCII character; (C) {} classes of one or two items (singles and ranges) over the encoding-length boundary points {{0 7C 7D 7F 80 81 7FF 800 FFFF 10000 10FFFF}} plus small literal sets around U+0080, plain and negated, under \"\", i, u, iu, v, against every haystack of length <= 1 over 20 boundary neighbours; compared with the reference semantics (range and match); non-trivial = a match exists",
         n_a,
         if thorough { 2 } else { 1 },
         maxlen,
@@ -282,7 +299,7 @@ pub fn c12(run: &mut Run) -> Stats {
     run.assumptions = vec!["reference semantics: CompileToCharSet / CharacterSetMatcher / ClassStrings of ES2025 as transcribed in mc/src/refmatch.rs (self-checked against V8 for v by tools/v8_crosscheck.js)".into()];
     run.extra.push(("class_expressions".into(), J::u(n_a as u64)));
     run.extra.push(("boundary_class_patterns".into(), J::u(n_c as u64)));
-    st_a.merge(st_b).merge(st_c)
+    st_a.merge(st_b).merge(st_c).merge(st_d)
 }
 
 /// Like sweep::eval_pattern, but the pattern text is the given spelling rather than the printed AST.
